@@ -1,8 +1,10 @@
 """C09 - TIFA's initialization / unused-variable diagnoses match the execution paths."""
+import ast
 import builtins
 import contextlib
 import io
 import itertools
+import json
 import re
 import traceback
 
@@ -329,12 +331,53 @@ def judge_loops(case):
                 except Exception:
                     pass
             if not causes and (exc_name == 'UnboundLocalError' or any(c.startswith('def') for c in ctx)):
-                causes.append('function-scope')
+                # the recorded finding is the missing local-binding rule: the function's own assignments come textually AFTER the
+                # read, so TIFA has not met a local of that name yet and resolves the global.  A local that was assigned (on some
+                # path) earlier in the same function is tracked by TIFA, and losing it is not that finding.
+                if not (exc_name == 'UnboundLocalError' and local_assigned_before(code, name, line)):
+                    causes.append('function-scope')
             cell = 'C09|missed-uninitialised-read|%s' % ('+'.join(causes) if causes else 'other|%s|assigned-in=%s' % (exc_name, '+'.join(ctx) or 'nowhere'))
             viol.append(V(cell,
                           'with inputs %r the read of %s on line %d raises %s, TIFA reports none of %s there\n%s'
                           % (list(vector), name, line, exc_name, INIT_LABELS, code)))
     return Result(viol[:2], bool(failures), ['loops', 'executions=%d' % min(executions, 243)])
+
+
+def local_assigned_before(code, name, line):
+    """Does the function that contains `line` assign `name` on an earlier line that lies on a path to `line` (i.e. not in another
+    branch of an if statement that also holds the read)?"""
+    tree = ast.parse(code)
+    for fn in ast.walk(tree):
+        if not (isinstance(fn, ast.FunctionDef) and fn.lineno < line <= fn.end_lineno):
+            continue
+        stores, read_stack = [], [None]
+
+        def visit(stmts, stack):
+            for st_ in stmts:
+                if st_.lineno <= line <= st_.end_lineno and not isinstance(st_, (ast.If, ast.For, ast.While)):
+                    read_stack[0] = stack
+                for node in ([st_] if not isinstance(st_, (ast.If, ast.For, ast.While)) else [st_.test if not isinstance(st_, ast.For) else st_.target]):
+                    for sub in ast.walk(node):
+                        if isinstance(sub, ast.Name) and isinstance(sub.ctx, ast.Store) and sub.id == name and sub.lineno < line:
+                            stores.append(stack)
+                if isinstance(st_, ast.If):
+                    if st_.lineno == line:
+                        read_stack[0] = stack
+                    visit(st_.body, stack + [(id(st_), 'body')])
+                    visit(st_.orelse, stack + [(id(st_), 'orelse')])
+                elif isinstance(st_, (ast.For, ast.While)):
+                    if st_.lineno == line:
+                        read_stack[0] = stack
+                    visit(st_.body, stack)
+                    visit(st_.orelse, stack)
+        visit(fn.body, [])
+        if read_stack[0] is None:
+            return False
+        here = dict(read_stack[0])
+        for stack in stores:
+            if all(here.get(if_id, branch) == branch for if_id, branch in stack):
+                return True
+    return False
 
 
 def assignment_contexts(block, name, ctx=('top',)):
@@ -461,7 +504,24 @@ def small_programs(tier):
                 yield {'program': prog, 'style': 1 + i % 6}
 
 
-ENUMS = {'small': small_programs}
+def caller_programs(tier):
+    """All small caller/callee programs: a global x, a function f that reads or assigns x, a function g that assigns / reads x and calls f in
+    every arrangement of two or three items (in and outside branches).  What the callee does to ITS x must not change what the
+    caller's reads of x are told."""
+    f_bodies = [[['p', 'x']], [['a0', 'x'], ['p', 'x']], [['cp', 'y', 'x']]]
+    items = [['a0', 'x'], ['if', [[['a0', 'x']]], None], ['call', 'f'], ['p', 'x'], ['if', [[['call', 'f'], ['p', 'x']]], None], ['if', [[['p', 'x']]], None],
+             ['if', [[['call', 'f']]], [['a0', 'x']]]]
+    for top in ([['a0', 'x']], []):
+        for fb in f_bodies:
+            for n in (2, 3):
+                for seq in itertools.product(range(len(items)), repeat=n):
+                    if not any(items[i][0] == 'call' or (items[i][0] == 'if' and 'call' in repr(items[i])) for i in seq):
+                        continue
+                    prog = [list(t) for t in top] + [['def', 'f', fb], ['def', 'g', [items[i] for i in seq]], ['call', 'g']]
+                    yield {'part': 2, 'program': json.loads(json.dumps(prog))}
+
+
+ENUMS = {'small': small_programs, 'callers': caller_programs}
 
 _var = st.sampled_from(VARS3)
 
@@ -471,10 +531,10 @@ def _simple():
                      st.tuples(st.just('p'), _var), st.tuples(st.just('p'), _var), st.tuples(st.just('p2'), _var, _var)).map(list)
 
 
-def _block(depth, loops=False):
+def _block(depth, loops=False, calls=None):
     if depth <= 0:
-        return st.lists(_simple(), min_size=1, max_size=3)
-    inner = _block(depth - 1, loops)
+        return st.lists(st.one_of(_simple(), _simple(), st.just(['call', calls])) if calls else _simple(), min_size=1, max_size=3)
+    inner = _block(depth - 1, loops, calls)
     ifs = st.tuples(st.just('if'), st.lists(inner, min_size=1, max_size=3), st.one_of(st.none(), inner)).map(list)
     options = [_simple(), _simple(), ifs]
     if loops:
@@ -492,7 +552,11 @@ def large_programs(tier):
 
 
 def loop_programs(tier):
-    funcs = st.lists(st.tuples(st.just('def'), st.sampled_from(['f', 'g']), _block(1, loops=True)).map(list), max_size=2, unique_by=lambda d: d[1])
+    plain = st.lists(st.tuples(st.just('def'), st.sampled_from(['f', 'g']), _block(1, loops=True)).map(list), max_size=2, unique_by=lambda d: d[1])
+    # ... or f, and a g whose body (also inside its branches) calls f: what a callee reads must not leak into the caller's own names
+    chained = st.tuples(st.tuples(st.just('def'), st.just('f'), _block(1, loops=True)).map(list),
+                        st.tuples(st.just('def'), st.just('g'), _block(1, loops=True, calls='f')).map(list)).map(list)
+    funcs = st.one_of(plain, chained)
 
     def assemble(t):
         defs, body, calls = t
@@ -531,5 +595,5 @@ STRATEGIES = {'large': large_programs, 'loops': loop_programs, 'listloops': list
 
 def plan(tier):
     k = 1 if tier == 'quick' else 30
-    return [Task('enum', 'small', shards=10), Task('hyp', 'large', shards=3, examples=scale(400 * k)),
+    return [Task('enum', 'small', shards=9), Task('enum', 'callers', shards=1), Task('hyp', 'large', shards=3, examples=scale(400 * k)),
             Task('hyp', 'loops', shards=2, examples=scale(300 * k)), Task('hyp', 'listloops', shards=2, examples=scale(400 * k))]
